@@ -1,5 +1,8 @@
+pub mod c01;
+pub mod c05;
 pub mod c10;
 pub mod c14;
 pub mod c15;
 pub mod c19;
 pub mod c20;
+pub mod common;
